@@ -142,6 +142,7 @@ class Tracer:
         self.mdib_lock = None
         self.locks = {}
         self.state_tables = []
+        self.on_before_release = None  # callable(lock name), run by the releasing thread while it still holds the lock
         self.expire_timeouts = False   # False | True (when another thread holds the lock) | 'always'
         self._suspend = threading.local()
 
@@ -210,6 +211,10 @@ class TracedLock:
     def release(self):
         self._depth -= 1
         outer = self._depth == 0
+        if outer and self._tracer.on_before_release is not None and self._tracer.enabled:
+            # still holding the lock: what the thread leaves behind can be looked at consistently (no event, no yield point)
+            with self._tracer.suspended():
+                self._tracer.on_before_release(self.name)
         if outer:
             self._owner = None
         self._lock.release()
